@@ -56,7 +56,7 @@ func ruleCheckPackGuards(c *eng.Ctx) {
 func init() {
 	register(&Property{
 		ID: "C11",
-		Explanation: "Decides the ordering that makes every crash prefix of a backup consistent: (uploader-flush) WithBlobUploader returns nil only after the callback and Repository.flush succeeded, flush runs only after the callback succeeded, and the result is Wait() of the errgroup the worker runs on; (flush-order) flush waits for all asynchronous blob savers before flushing the packers, writes the index only after flushPackUploader succeeded, and flushPackUploader succeeds only after both packer managers flushed and packerWg.Wait() returned; (pack-before-index) in savePacker MasterIndex.StorePack is reachable only through the success edge of be.Save, be.Save only after Packer.Finalize succeeded, StorePack has no other caller with fresh packs, upload workers propagate savePacker errors; (snapshot-after-upload) every data.SaveSnapshot site of the program lies outside any WithBlobUploader callback and, where an upload session precedes it (in the function or its callers), behind that session's success edge; snapshot files are written through no other path. Hence no crash prefix contains a snapshot whose packs or index entries were not stored first. Not decided: that a later backup/prune on the interrupted state succeeds (C09/C15).",
+		Explanation: "Decides the ordering that makes every crash prefix of a backup consistent: (uploader-flush) WithBlobUploader returns nil only after the callback and Repository.flush succeeded, flush runs only after the callback succeeded, and the result is Wait() of the errgroup the worker runs on; (flush-order) flush waits for all asynchronous blob savers before flushing the packers, writes the index only after flushPackUploader succeeded, and flushPackUploader succeeds only after both packer managers flushed and packerWg.Wait() returned; (pack-before-index) in savePacker MasterIndex.StorePack is reachable only through the success edge of be.Save, be.Save only after Packer.Finalize succeeded, StorePack has no other caller with fresh packs, upload workers propagate savePacker errors; (snapshot-after-upload) every data.SaveSnapshot site of the program lies outside any WithBlobUploader callback and, where an upload session precedes it (in the function or its callers), behind that session's success edge; snapshot files are written through no other path; (root-tree-provenance) in Archiver.Snapshot the root tree id is assigned only behind the success edge of saveTree and the nil-error edge of the saved root node's result, the archiving goroutine returns nil only after that assignment, the upload callback returns nil only behind wg.Wait() == nil, and sn.Tree is that variable; (steps-before-effects) inside savePacker, packerManager.SaveBlob/Flush and Index.SaveIndex an effect (queueing a pack, be.Save, StorePack, SaveUnpacked of an index) is reached from every earlier fallible step only through that step's success edge (both added after the mutant sweep showed that ignoring these errors went unnoticed). Hence no crash prefix contains a snapshot whose packs or index entries were not stored first. Not decided: that a later backup/prune on the interrupted state succeeds (C09/C15).",
 		Assumptions: append([]string{"errgroup.Group.Wait returns the first non-nil error of the functions started with Go", "backend.Save returns nil only after the file is durably stored (C36 for the local backend)"}, commonAssumptions...),
 		Technique:   "static analysis: CFG edge-cut ordering + enumeration of all snapshot-save sites with caller-chain propagation (go/ssa)",
 		AllConfigs:  true,
@@ -66,8 +66,16 @@ func init() {
 			rulePackBeforeIndex(c)
 			ruleUploadErrorsPropagate(c)
 			ruleSnapshotAfterUpload(c)
+			ruleRootTreeProvenance(c)
+			ruleStepsBeforeEffects(c)
 		},
 		Controls: []Control{
+			{Name: "pack-hashed-despite-read-error", File: "internal/repository/packer_manager.go",
+				Old: "	_, err = io.Copy(io.Discard, hr)\n	if err != nil {\n		return err\n	}", New: "	_, err = io.Copy(io.Discard, hr)\n	if err != nil {\n		debug.Log(\"hashing failed: %v\", err)\n	}", Rule: "steps-before-effects"},
+			{Name: "failed-tree-save-ignored-by-upload-callback", File: "internal/archiver/archiver.go",
+				Old: "		if err != nil {\n			debug.Log(\"error while saving tree: %v\", err)\n			return err\n		}\n		return nil", New: "		if err != nil {\n			debug.Log(\"error while saving tree: %v\", err)\n		}\n		return nil", Rule: "root-tree-provenance"},
+			{Name: "root-id-taken-despite-failed-root-node", File: "internal/archiver/archiver.go",
+				Old: "			fnr := fn.take(wgCtx)\n			if fnr.err != nil {\n				return fnr.err\n			}\n", New: "			fnr := fn.take(wgCtx)\n			if fnr.err != nil && fnr.node == nil {\n				return fnr.err\n			}\n", Rule: "root-tree-provenance"},
 			{Name: "index-before-pack-upload", File: "internal/repository/repository.go",
 				Old: "	if err := r.flushPackUploader(ctx); err != nil {\n		return err\n	}\n\n	return r.idx.Flush(ctx, &internalRepository{r})", New: "	if err := r.idx.Flush(ctx, &internalRepository{r}); err != nil {\n		return err\n	}\n\n	return r.flushPackUploader(ctx)", Rule: "flush-order"},
 			{Name: "storepack-despite-save-error", File: "internal/repository/packer_manager.go",
@@ -137,6 +145,7 @@ func init() {
 			ruleFlushOrder(c)
 			ruleNoOrphanPacker(c)
 			ruleAsyncSaversTracked(c)
+			ruleStepsBeforeEffects(c)
 		},
 		Controls: []Control{
 			{Name: "async-saver-not-registered", File: "internal/repository/repository.go",
